@@ -150,7 +150,7 @@ class C16World(World):
         root = sandbox.root()
         os.chdir(os.path.join(root, "N"))
         try:
-            why = self.n.success_goal(st.n) if not self.cfg.get("cancels") and self.n.link == "ff" else []
+            why = self.n.success_goal(st.n) if not self.cfg.get("cancels") and self.n.link == "ff" and self.cfg.get("shape") not in ("nodir", "dir_dir") else []
         finally:
             os.chdir(root)
         if why:
@@ -178,6 +178,9 @@ def configs(tier):
         if tier == "quick" and shape != "new" and size not in (L + 1,):
             continue
         add(mode=mode, closure=closure, size=size, shape=shape, link="ff")
+    # destinations that cannot be created: missing directory, a directory in the way
+    for shape, mode in itertools.product(("nodir", "dir_dir"), ("ack", "unack")):
+        add(mode=mode, closure=True, size=L + 1, shape=shape, link="ff")
     for cks, mode in itertools.product(("crc32", "crc32c", "mod", "null"), ("ack", "unack")):
         add(cks=cks, mode=mode, closure=True, size=L + 1, link="ff")
     for mode, closure in itertools.product(("ack", "unack"), (False, True)):
